@@ -56,6 +56,7 @@ typedef struct {
   int fd_a, fd_b;     /* poll: socketpair (a is watched) */
   int bound;          /* tcp/pipe/udp: socket exists */
   int conn_pending;   /* pipe: a connect request is outstanding */
+  int dupfd;          /* tcp/udp/pipe: a dup of the socket kept open by the application (the open file outlives uv_close) */
   char path[400];     /* pipe */
 } hent;
 typedef struct { int kind; int state; void* ptr; int handle; } rent;   /* kind 0 = work, 1 = udp_send */
@@ -64,7 +65,9 @@ static rent R[MAXR]; static int nr;
 typedef struct { char key; int id, occ; char* ops; } sent;
 static sent S[MAXS]; static int ns;
 
-static uv_loop_t loop;
+static uv_loop_t loop_storage;
+static int use_default;   /* the loop under test is uv_default_loop(), looked up afresh at every use */
+#define LP (use_default ? uv_default_loop() : &loop_storage)
 static int loop_closed, in_cb, in_run;
 static long ncb_total, cblimit = 1000000;
 static int cfg_metrics;
@@ -74,6 +77,8 @@ static struct { long k; long d; } eintr[64]; static int neintr;
 static long fullat[128]; static int nfull;   /* poll calls whose non-empty batch is padded to a completely full one */
 static long npolls, polllimit = 400;
 static int fs_traffic, touch_no;
+static long sigpipe_sz; static int sig_traffic;
+static int fail_socket_errno;   /* next socket() fails with this errno */
 
 /* ------------------------------------------------------------------ thread pool gate */
 static pthread_mutex_t gm = PTHREAD_MUTEX_INITIALIZER;
@@ -94,9 +99,9 @@ static void work_cb(uv_work_t* req) {
 
 static int wq_count(void) {
   int n = 0; struct uv__queue* q;
-  uv_mutex_lock(&loop.wq_mutex);
-  for (q = loop.wq.next; q != &loop.wq; q = q->next) n++;
-  uv_mutex_unlock(&loop.wq_mutex);
+  uv_mutex_lock(&LP->wq_mutex);
+  for (q = LP->wq.next; q != &LP->wq; q = q->next) n++;
+  uv_mutex_unlock(&LP->wq_mutex);
   return n;
 }
 
@@ -118,12 +123,12 @@ static int complete_works(void) {
 static void walk_count(uv_handle_t* h, void* arg) { (void) h; ++*(int*) arg; }
 static void obs(void) {
   if (loop_closed) { printf("obs closed\n"); return; }
-  int n = 0; uv_walk(&loop, walk_count, &n);
-  printf("obs alive=%d ah=%d ar=%d stop=%d nh=%d now=%llu pq=", uv_loop_alive(&loop) != 0, (int) loop.active_handles,
-         (int) loop.active_reqs.count, loop.stop_flag != 0, n, (unsigned long long) uv_now(&loop));
+  int n = 0; uv_walk(LP, walk_count, &n);
+  printf("obs alive=%d ah=%d ar=%d stop=%d nh=%d now=%llu pq=", uv_loop_alive(LP) != 0, (int) LP->active_handles,
+         (int) LP->active_reqs.count, LP->stop_flag != 0, n, (unsigned long long) uv_now(LP));
   {  /* owners of the io watchers queued in loop->pending_queue (public struct field) */
     struct uv__queue* q; int first = 1;
-    for (q = loop.pending_queue.next; q != &loop.pending_queue; q = q->next) {
+    for (q = LP->pending_queue.next; q != &LP->pending_queue; q = q->next) {
       uv__io_t* w = (uv__io_t*) ((char*) q - offsetof(uv__io_t, pending_queue));
       int owner = -1;
       for (int i = 0; i < nh; i++) if (H[i].state == H_LIVE && (H[i].kind == K_UDP || H[i].kind == K_TCP || H[i].kind == K_PIPE)) {
@@ -142,19 +147,19 @@ static void obs(void) {
 
 /* ------------------------------------------------------------------ epoll wrapper */
 static int owner_key(int fd, char* name) {
-  if (fd == loop.async_io_watcher.fd) { strcpy(name, "async"); return 0; }
+  if (fd == LP->async_io_watcher.fd) { strcpy(name, "async"); return 0; }
   for (int i = 0; i < nh; i++) if (H[i].state == H_LIVE) {
     int hfd = -1;
     if (H[i].kind == K_POLL) hfd = H[i].fd_a;
     else if (H[i].bound) uv_fileno(H[i].ptr, &hfd);
     if (hfd == fd) { sprintf(name, "h%d", i); return 1 + i; }
   }
-  if (fd == loop.signal_pipefd[0]) { strcpy(name, "signal"); return 100000; }
-  if (fd == loop.inotify_fd) { strcpy(name, "inotify"); return 99999; }
+  if (fd == LP->signal_pipefd[0]) { strcpy(name, "signal"); return 100000; }
+  if (fd == LP->inotify_fd) { strcpy(name, "inotify"); return 99999; }
   sprintf(name, "other"); return 100001;
 }
 
-static unsigned long long iter_no(void) { uv_metrics_t m; if (uv_metrics_info(&loop, &m)) return 0; return m.loop_count; }
+static unsigned long long iter_no(void) { uv_metrics_t m; if (uv_metrics_info(LP, &m)) return 0; return m.loop_count; }
 
 int epoll_pwait(int epfd, struct epoll_event* ev, int maxev, int timeout, const sigset_t* ss) {
   (void) ss;
@@ -199,6 +204,25 @@ int epoll_pwait(int epfd, struct epoll_event* ev, int maxev, int timeout, const 
   printf("\n");
   return n;
 }
+
+/* ------------------------------------------------------------------ socket() failure injection */
+int socket(int domain, int type, int protocol) {
+  if (fail_socket_errno) { errno = fail_socket_errno; fail_socket_errno = 0; return -1; }
+  return (int) syscall(SYS_socket, domain, type, protocol);
+}
+
+/* is the open file behind `fd` still in the interest set of the loop's epoll instance?  (fdinfo: `tfd: N ... ino:HEX`) */
+static int epoll_has_ino(unsigned long ino) {
+  char p[64], line[256]; snprintf(p, sizeof p, "/proc/self/fdinfo/%d", LP->backend_fd);
+  FILE* f = fopen(p, "r"); if (!f) return -1;
+  int n = 0;
+  while (fgets(line, sizeof line, f)) {
+    char* q = strstr(line, "ino:");
+    if (!strncmp(line, "tfd:", 4) && q && strtoul(q + 4, NULL, 16) == ino) n++;
+  }
+  fclose(f); return n;
+}
+static unsigned long ino_of(int fd) { struct stat st; if (fd < 0 || fstat(fd, &st)) return 0; return (unsigned long) st.st_ino; }
 
 /* ------------------------------------------------------------------ send wrappers (forced EAGAIN) */
 static long eagain_budget;
@@ -265,11 +289,16 @@ static void recv_cb(uv_udp_t* h, ssize_t n, const uv_buf_t* b, const struct sock
 
 /* kernel inotify watches of the loop's inotify descriptor (fdinfo), -1 if unreadable */
 static int inotify_watches(void) {
-  if (loop.inotify_fd == -1) return 0;
-  char p[64], line[256]; snprintf(p, sizeof p, "/proc/self/fdinfo/%d", loop.inotify_fd);
+  if (LP->inotify_fd == -1) return 0;
+  char p[64], line[256]; snprintf(p, sizeof p, "/proc/self/fdinfo/%d", LP->inotify_fd);
   FILE* f = fopen(p, "r"); if (!f) return -1;
   int n = 0; while (fgets(line, sizeof line, f)) if (!strncmp(line, "inotify wd:", 11)) n++;
   fclose(f); return n;
+}
+
+static void keep_dup(int i) {
+  int fd = -1;
+  if (H[i].dupfd <= 0 && uv_fileno(H[i].ptr, &fd) == 0 && fd >= 0) H[i].dupfd = fcntl(fd, F_DUPFD_CLOEXEC, 3);
 }
 
 static void close_cb(uv_handle_t* h) {
@@ -279,10 +308,13 @@ static void close_cb(uv_handle_t* h) {
   H[i].state = H_DEAD;
   obs();
   in_cb++; run_script('c', i, 0, g); in_cb--;
-  if (H[i].kind == K_POLL) { close(H[i].fd_a); close(H[i].fd_b); }
+  int reg = -2;   /* kernel interest set of the loop: the handle's open file must be gone by close_cb */
+  if (H[i].kind == K_POLL) { reg = epoll_has_ino(ino_of(H[i].fd_a)); close(H[i].fd_a); close(H[i].fd_b); }
+  else if (H[i].dupfd > 0) { reg = epoll_has_ino(ino_of(H[i].dupfd)); close(H[i].dupfd); H[i].dupfd = 0; }
   H[i].ptr = NULL;
   free(h);
   printf("endcb\n"); obs();
+  if (reg != -2) printf("res h%d epoll=%d\n", i, reg);
   if (H[i].kind == K_FSEVENT && fs_traffic) printf("res h%d iw=%d\n", i, inotify_watches());
   if (H[i].kind == K_PIPE) {   /* what is left of bound socket files in the scratch directory */
     char p[200]; snprintf(p, sizeof p, "%s/sock", scratch); int n = 0; DIR* d = opendir(p); struct dirent* e;
@@ -340,20 +372,20 @@ static void exec_op(char* text0) {
     hent* e = &H[nh]; memset(e, 0, sizeof *e); e->kind = k; e->fd_a = e->fd_b = -1;
     int r = 0;
     switch (k) {
-    case K_TIMER: e->ptr = malloc(sizeof(uv_timer_t)); r = uv_timer_init(&loop, (uv_timer_t*) e->ptr); break;
-    case K_IDLE: e->ptr = malloc(sizeof(uv_idle_t)); r = uv_idle_init(&loop, (uv_idle_t*) e->ptr); break;
-    case K_PREPARE: e->ptr = malloc(sizeof(uv_prepare_t)); r = uv_prepare_init(&loop, (uv_prepare_t*) e->ptr); break;
-    case K_CHECK: e->ptr = malloc(sizeof(uv_check_t)); r = uv_check_init(&loop, (uv_check_t*) e->ptr); break;
-    case K_ASYNC: e->ptr = malloc(sizeof(uv_async_t)); r = uv_async_init(&loop, (uv_async_t*) e->ptr, async_cb); break;
+    case K_TIMER: e->ptr = malloc(sizeof(uv_timer_t)); r = uv_timer_init(LP, (uv_timer_t*) e->ptr); break;
+    case K_IDLE: e->ptr = malloc(sizeof(uv_idle_t)); r = uv_idle_init(LP, (uv_idle_t*) e->ptr); break;
+    case K_PREPARE: e->ptr = malloc(sizeof(uv_prepare_t)); r = uv_prepare_init(LP, (uv_prepare_t*) e->ptr); break;
+    case K_CHECK: e->ptr = malloc(sizeof(uv_check_t)); r = uv_check_init(LP, (uv_check_t*) e->ptr); break;
+    case K_ASYNC: e->ptr = malloc(sizeof(uv_async_t)); r = uv_async_init(LP, (uv_async_t*) e->ptr, async_cb); break;
     case K_POLL: {
       int sv[2]; if (socketpair(AF_UNIX, SOCK_STREAM | SOCK_CLOEXEC | SOCK_NONBLOCK, 0, sv)) { perror("socketpair"); exit(4); }
       e->fd_a = sv[0]; e->fd_b = sv[1];
-      e->ptr = malloc(sizeof(uv_poll_t)); r = uv_poll_init(&loop, (uv_poll_t*) e->ptr, sv[0]); break; }
-    case K_TCP: e->ptr = malloc(sizeof(uv_tcp_t)); r = uv_tcp_init(&loop, (uv_tcp_t*) e->ptr); break;
-    case K_UDP: e->ptr = malloc(sizeof(uv_udp_t)); r = uv_udp_init(&loop, (uv_udp_t*) e->ptr); break;
-    case K_PIPE: e->ptr = malloc(sizeof(uv_pipe_t)); r = uv_pipe_init(&loop, (uv_pipe_t*) e->ptr, 0); break;
-    case K_SIGNAL: e->ptr = malloc(sizeof(uv_signal_t)); r = uv_signal_init(&loop, (uv_signal_t*) e->ptr); break;
-    case K_FSEVENT: e->ptr = malloc(sizeof(uv_fs_event_t)); r = uv_fs_event_init(&loop, (uv_fs_event_t*) e->ptr); break;
+      e->ptr = malloc(sizeof(uv_poll_t)); r = uv_poll_init(LP, (uv_poll_t*) e->ptr, sv[0]); break; }
+    case K_TCP: e->ptr = malloc(sizeof(uv_tcp_t)); r = uv_tcp_init(LP, (uv_tcp_t*) e->ptr); break;
+    case K_UDP: e->ptr = malloc(sizeof(uv_udp_t)); r = uv_udp_init(LP, (uv_udp_t*) e->ptr); break;
+    case K_PIPE: e->ptr = malloc(sizeof(uv_pipe_t)); r = uv_pipe_init(LP, (uv_pipe_t*) e->ptr, 0); break;
+    case K_SIGNAL: e->ptr = malloc(sizeof(uv_signal_t)); r = uv_signal_init(LP, (uv_signal_t*) e->ptr); break;
+    case K_FSEVENT: e->ptr = malloc(sizeof(uv_fs_event_t)); r = uv_fs_event_init(LP, (uv_fs_event_t*) e->ptr); break;
     }
     if (r != 0) { fprintf(stderr, "init failed %d\n", r); exit(4); }
     e->state = H_LIVE; nh++;
@@ -370,9 +402,9 @@ static void exec_op(char* text0) {
     case K_CHECK: RET(uv_check_start((uv_check_t*) e->ptr, check_cb));
     case K_SIGNAL: RET(uv_signal_start((uv_signal_t*) e->ptr, signal_cb, SIGUSR2));
     case K_FSEVENT: { char p[200]; snprintf(p, sizeof p, "%s/watch", scratch); RET(uv_fs_event_start((uv_fs_event_t*) e->ptr, fsevent_cb, p, 0)); }
-    case K_UDP: r = uv_udp_recv_start((uv_udp_t*) e->ptr, alloc_cb, recv_cb); if (r == 0) e->bound = 1; RET(r);
+    case K_UDP: r = uv_udp_recv_start((uv_udp_t*) e->ptr, alloc_cb, recv_cb); if (r == 0) e->bound = 1; keep_dup(i); RET(r);
     case K_TCP:
-      if (!e->bound) { struct sockaddr_in a; uv_ip4_addr("127.0.0.1", 0, &a); r = uv_tcp_bind((uv_tcp_t*) e->ptr, (struct sockaddr*) &a, 0); if (r) RET(r); e->bound = 1; }
+      if (!e->bound) { struct sockaddr_in a; uv_ip4_addr("127.0.0.1", 0, &a); r = uv_tcp_bind((uv_tcp_t*) e->ptr, (struct sockaddr*) &a, 0); if (r) RET(r); e->bound = 1; keep_dup(i); }
       RET(uv_listen((uv_stream_t*) e->ptr, 8, conn_cb));
     case K_PIPE:
       if (e->conn_pending) BAD;   /* uv_listen while a connect is pending: not a legal program */
@@ -380,7 +412,7 @@ static void exec_op(char* text0) {
         int want = atoi(w[2]); int l = snprintf(e->path, sizeof e->path, "%s/sock/h%d_", scratch, i);
         while (l < want && l < (int) sizeof e->path - 1) e->path[l++] = 'x';
         e->path[l] = 0;
-        r = uv_pipe_bind((uv_pipe_t*) e->ptr, e->path); if (r) RET(r); e->bound = 1;
+        r = uv_pipe_bind((uv_pipe_t*) e->ptr, e->path); if (r) RET(r); e->bound = 1; keep_dup(i);
       }
       RET(uv_listen((uv_stream_t*) e->ptr, 8, conn_cb));
     default: BAD;
@@ -414,7 +446,7 @@ static void exec_op(char* text0) {
   if (!strcmp(o, "async_send") && nw == 2 && live(i) && H[i].kind == K_ASYNC && !uv_is_closing(H[i].ptr)) RET(uv_async_send((uv_async_t*) H[i].ptr));
   if (!strcmp(o, "bind") && nw == 2 && live(i) && H[i].kind == K_UDP && !uv_is_closing(H[i].ptr) && !H[i].bound) {
     struct sockaddr_in a; uv_ip4_addr("127.0.0.1", 0, &a);
-    int r = uv_udp_bind((uv_udp_t*) H[i].ptr, (struct sockaddr*) &a, 0); if (r == 0) H[i].bound = 1; RET(r);
+    int r = uv_udp_bind((uv_udp_t*) H[i].ptr, (struct sockaddr*) &a, 0); if (r == 0) { H[i].bound = 1; keep_dup(i); } RET(r);
   }
   if (!strcmp(o, "dgram") && nw == 2 && live(i) && H[i].kind == K_UDP && H[i].bound && !uv_is_closing(H[i].ptr)) {
     /* environment: one datagram arrives for the handle */
@@ -429,7 +461,7 @@ static void exec_op(char* text0) {
     R[nr].kind = 4; R[nr].state = H_LIVE; R[nr].ptr = req; R[nr].handle = h; nr++;
     int r = uv_udp_send(req, (uv_udp_t*) H[h].ptr, &b, 1, (struct sockaddr*) &sink_addr, NULL);
     if (r != 0) { fprintf(stderr, "udp_send failed %d\n", r); exit(4); }
-    H[h].bound = 1;
+    H[h].bound = 1; keep_dup(h);
     RET(r);
   }
   if (!strcmp(o, "udp_send") && nw == 2 && nr < MAXR) {
@@ -439,7 +471,7 @@ static void exec_op(char* text0) {
     R[nr].kind = 1; R[nr].state = H_LIVE; R[nr].ptr = req; R[nr].handle = h; nr++;
     int r = uv_udp_send(req, (uv_udp_t*) H[h].ptr, &b, 1, (struct sockaddr*) &sink_addr, send_cb);
     if (r != 0) { fprintf(stderr, "udp_send failed %d\n", r); exit(4); }
-    H[h].bound = 1;
+    H[h].bound = 1; keep_dup(h);
     RET(r);
   }
   if ((!strcmp(o, "work") || !strcmp(o, "work_nocb")) && nw == 1 && nr < MAXR) {
@@ -448,7 +480,7 @@ static void exec_op(char* text0) {
     R[nr].kind = nocb ? 3 : 0; R[nr].state = H_LIVE; R[nr].ptr = req; R[nr].handle = -1;
     int me = nr++;
     pthread_mutex_lock(&gm); long s0 = started; pthread_mutex_unlock(&gm);
-    int r = uv_queue_work(&loop, req, work_cb, nocb ? NULL : after_work_cb);
+    int r = uv_queue_work(LP, req, work_cb, nocb ? NULL : after_work_cb);
     if (r != 0) { fprintf(stderr, "queue_work failed %d\n", r); exit(4); }
     if (pool_running < 0) {
       pool_running = me;   /* the single worker is idle: wait until it has picked the item up */
@@ -457,7 +489,7 @@ static void exec_op(char* text0) {
     RET(r);
   }
   if (!strcmp(o, "work_null") && nw == 1) {   /* rejected synchronously: no work_cb */
-    uv_work_t* req = malloc(sizeof *req); int r = uv_queue_work(&loop, req, NULL, after_work_cb); free(req); RET(r);
+    uv_work_t* req = malloc(sizeof *req); int r = uv_queue_work(LP, req, NULL, after_work_cb); free(req); RET(r);
   }
   if (!strcmp(o, "udp_send_bad") && nw == 2 && live(i) && H[i].kind == K_UDP && !uv_is_closing(H[i].ptr)) {
     /* rejected synchronously: no destination on an unconnected socket */
@@ -476,13 +508,13 @@ static void exec_op(char* text0) {
   if (!strcmp(o, "reject") && nw == 2) {   /* requests the API refuses synchronously: nothing may stay registered */
     if (!strcmp(w[1], "getaddrinfo")) {
       static char host[301]; memset(host, 'a', 300); host[300] = 0;
-      uv_getaddrinfo_t* req = malloc(sizeof *req); int r = uv_getaddrinfo(&loop, req, gai_cb, host, NULL, NULL); free(req); RET(r);
+      uv_getaddrinfo_t* req = malloc(sizeof *req); int r = uv_getaddrinfo(LP, req, gai_cb, host, NULL, NULL); free(req); RET(r);
     }
     if (!strcmp(w[1], "getnameinfo")) {
-      uv_getnameinfo_t* req = malloc(sizeof *req); int r = uv_getnameinfo(&loop, req, gni_cb, NULL, 0); free(req); RET(r);
+      uv_getnameinfo_t* req = malloc(sizeof *req); int r = uv_getnameinfo(LP, req, gni_cb, NULL, 0); free(req); RET(r);
     }
     if (!strcmp(w[1], "random")) {
-      static char b[4]; uv_random_t* req = malloc(sizeof *req); int r = uv_random(&loop, req, b, sizeof b, 1, rnd_cb); free(req); RET(r);
+      static char b[4]; uv_random_t* req = malloc(sizeof *req); int r = uv_random(LP, req, b, sizeof b, 1, rnd_cb); free(req); RET(r);
     }
     BAD;
   }
@@ -492,6 +524,48 @@ static void exec_op(char* text0) {
     int r = (touch_no % 2 == 0) ? mkdir(p, 0700) : rmdir(p); touch_no++;
     RET(r);
   }
+  if (!strcmp(o, "init_fail") && nw == 3) {
+    /* an init call that fails: it must leave no trace in the loop (the application frees the memory at once) */
+    int en = !strcmp(w[2], "EMFILE") ? EMFILE : !strcmp(w[2], "ENFILE") ? ENFILE : !strcmp(w[2], "EAFNOSUPPORT") ? EAFNOSUPPORT :
+             !strcmp(w[2], "ENOBUFS") ? ENOBUFS : !strcmp(w[2], "EINVAL") ? -1 : !strcmp(w[2], "EBADF") ? -2 : 0;
+    if (en == 0) BAD;
+    int r = 0;
+    if (!strcmp(w[1], "udp")) {
+      uv_udp_t* h = malloc(sizeof *h);
+      if (en > 0) { fail_socket_errno = en; r = uv_udp_init_ex(LP, h, AF_INET); } else r = uv_udp_init_ex(LP, h, 77);   /* bad domain: UV_EINVAL */
+      fail_socket_errno = 0;
+      if (r == 0) { fprintf(stderr, "init_fail: udp init succeeded\n"); exit(4); }
+      free(h);
+    } else if (!strcmp(w[1], "tcp")) {
+      uv_tcp_t* h = malloc(sizeof *h);
+      if (en > 0) { fail_socket_errno = en; r = uv_tcp_init_ex(LP, h, AF_INET); } else r = uv_tcp_init_ex(LP, h, 77);
+      fail_socket_errno = 0;
+      if (r == 0) { fprintf(stderr, "init_fail: tcp init succeeded\n"); exit(4); }
+      free(h);
+    } else if (!strcmp(w[1], "poll")) {
+      uv_poll_t* h = malloc(sizeof *h);
+      int fd = -1;
+      if (en == -2) { int sv[2]; if (socketpair(AF_UNIX, SOCK_STREAM, 0, sv)) exit(4); close(sv[0]); close(sv[1]); fd = sv[0]; }   /* closed descriptor: UV_EBADF */
+      else {   /* a descriptor the loop already watches: UV_EEXIST */
+        for (int j = 0; j < nh; j++) if (H[j].state == H_LIVE && H[j].kind == K_POLL && uv_is_active(H[j].ptr)) fd = H[j].fd_a;
+        if (fd < 0) { free(h); BAD; }
+      }
+      r = uv_poll_init(LP, h, fd);
+      if (r == 0) { fprintf(stderr, "init_fail: poll init succeeded\n"); exit(4); }
+      free(h);
+    } else BAD;
+    RET(r);
+  }
+  if (!strcmp(o, "raise") && nw == 2) {
+    /* environment: SIGUSR2 arrives N times (the handler runs synchronously here and writes to the loop's signal pipe) */
+    int ok = 0;
+    for (int j = 0; j < nh; j++) if (H[j].state == H_LIVE && H[j].kind == K_SIGNAL && uv_is_active(H[j].ptr)) ok = 1;
+    if (!ok) BAD;   /* no handler installed: the default action would kill the process */
+    long n = atol(w[1]); if (n < 0 || n > 100000) BAD;
+    sig_traffic = 1;
+    for (long j = 0; j < n; j++) raise(SIGUSR2);
+    RET(0);
+  }
   if (!strcmp(o, "cancel") && nw == 2) {
     int r = rnum(w[1]);
     if (r < 0 || r >= nr || R[r].state != H_LIVE || (R[r].kind != 0 && R[r].kind != 3)) BAD;
@@ -499,16 +573,16 @@ static void exec_op(char* text0) {
     if (rc == 0) for (int j = 0; j < pool_qn; j++) if (pool_q[j] == r) { memmove(pool_q + j, pool_q + j + 1, (pool_qn - j - 1) * sizeof(int)); pool_qn--; break; }
     RET(rc);
   }
-  if (!strcmp(o, "stop_loop") && nw == 1) { uv_stop(&loop); RET(0); }
-  if (!strcmp(o, "update_time") && nw == 1) { uv_update_time(&loop); RET(0); }
+  if (!strcmp(o, "stop_loop") && nw == 1) { uv_stop(LP); RET(0); }
+  if (!strcmp(o, "update_time") && nw == 1) { uv_update_time(LP); RET(0); }
   if (!strcmp(o, "advance") && nw == 2) { vclock_ms += strtoull(w[1], 0, 10); RET(0); }
-  if (!strcmp(o, "alive") && nw == 1) RET(uv_loop_alive(&loop) != 0);
+  if (!strcmp(o, "alive") && nw == 1) RET(uv_loop_alive(LP) != 0);
   if (!strcmp(o, "backend_timeout") && nw == 1) {
     /* for the monitors: are descriptor registrations still waiting to be applied? (public struct field) */
-    printf("res wq=%d\n", loop.watcher_queue.next != &loop.watcher_queue);
-    RET(uv_backend_timeout(&loop));
+    printf("res wq=%d\n", LP->watcher_queue.next != &LP->watcher_queue);
+    RET(uv_backend_timeout(LP));
   }
-  if (!strcmp(o, "now") && nw == 1) RETU(uv_now(&loop));
+  if (!strcmp(o, "now") && nw == 1) RETU(uv_now(LP));
   if (!strcmp(o, "is_active") && nw == 2 && live(i)) RET(uv_is_active(H[i].ptr) != 0);
   if (!strcmp(o, "has_ref") && nw == 2 && live(i)) RET(uv_has_ref(H[i].ptr) != 0);
   if (!strcmp(o, "is_closing") && nw == 2 && live(i)) RET(uv_is_closing(H[i].ptr) != 0);
@@ -519,11 +593,11 @@ static void exec_op(char* text0) {
     int m = !strcmp(w[1], "DEFAULT") ? UV_RUN_DEFAULT : !strcmp(w[1], "ONCE") ? UV_RUN_ONCE : !strcmp(w[1], "NOWAIT") ? UV_RUN_NOWAIT : -1;
     if (m < 0) BAD;
     printf("run %s\n", w[1]);
-    in_run = 1; int r = uv_run(&loop, (uv_run_mode) m); in_run = 0;
+    in_run = 1; int r = uv_run(LP, (uv_run_mode) m); in_run = 0;
     RET(r != 0);
   }
   if (!strcmp(o, "loop_close") && nw == 1 && !in_cb) {
-    int r = uv_loop_close(&loop);
+    int r = uv_loop_close(LP);
     if (r == 0) {
       loop_closed = 1;
       printf("op %s -> ret 0\n", text);
@@ -558,6 +632,8 @@ int main(int argc, char** argv) {
       else if (sscanf(line, "config cblimit %ld", &v) == 1) cblimit = v;
       else if (sscanf(line, "config polllimit %ld", &v) == 1) polllimit = v;
       else if (sscanf(line, "config eagain %ld", &v) == 1) eagain_budget = v;
+      else if (sscanf(line, "config default_loop %ld", &v) == 1) use_default = (int) v;
+      else if (sscanf(line, "config sigpipe %ld", &v) == 1) sigpipe_sz = v;
       else if (!strncmp(line, "config full", 11)) {
         p = line + 11; char* save; for (char* t = strtok_r(p, " ", &save); t && nfull < 128; t = strtok_r(NULL, " ", &save)) fullat[nfull++] = atol(t);
       }
@@ -578,8 +654,9 @@ int main(int argc, char** argv) {
       if (!inited) {
         inited = 1;
         fds_before = count_fds();
-        if (uv_loop_init(&loop)) { fprintf(stderr, "loop init failed\n"); return 4; }
-        if (cfg_metrics) uv_loop_configure(&loop, UV_METRICS_IDLE_TIME);
+        if (use_default ? uv_default_loop() == NULL : uv_loop_init(&loop_storage)) { fprintf(stderr, "loop init failed\n"); return 4; }
+        if (sigpipe_sz > 0) fcntl(LP->signal_pipefd[1], F_SETPIPE_SZ, (int) sigpipe_sz);   /* small signal pipe: overflow is cheap */
+        if (cfg_metrics) uv_loop_configure(LP, UV_METRICS_IDLE_TIME);
         obs();
       }
       exec_op(line + 3);
